@@ -25,6 +25,7 @@ on the changed presentation the real annotation contradicts the model by the rul
 functional equality where the implementation has no freedom), C04 (`stk.find`) and C11 (`ann.bph`), or the model
 itself answers differently on two decided presentations (contradicting the invariance theorems).
 """
+import os
 import json
 
 import numpy
@@ -245,6 +246,7 @@ def build_cases(ctx, res):
             sib = P.table_icode_siblings(rng, recs)
             if sib is not None:
                 variants.append(("icode-siblings", sib, {}))
+            variants.append(("model-5", [dict(r, model=5) for r in recs], {}))     # the only model of the file is not number 1
             org = P.table_atom_at_origin(rng, recs)
             if org is not None:
                 variants.append(("atom-at-origin", org, {}))
@@ -263,10 +265,13 @@ def build_cases(ctx, res):
                              "read_3d_structure raised: pdb=%s cif=%s" % (st_p[1] if st_p[0] != "ok" else "ok", st_c[1] if st_c[0] != "ok" else "ok"))
                     continue
                 rp, rc, rb = st_p[1].residues, st_c[1].residues, st_b[1].residues
+                if sorted({r.model for r in rp}) != sorted({r.model for r in rc}):
+                    res.fail("spec", "C05:format:model-numbers-differ", {"family": "format", "tag": vtag, "texts": {"pdb": pdb, "cif": cif}},
+                             "the same table read as PDB has models %s, as mmCIF %s" % (sorted({r.model for r in rp}), sorted({r.model for r in rc})))
                 # PDB against mmCIF of the same table
                 cases.append(mk_case("format", "pdb-vs-cif:" + vtag, rc, rp, source=name, texts={"base": cif, "other": pdb},
                                      margins_other=False))
-                if vtag not in ("same", "icodes-descending"):
+                if vtag not in ("same", "icodes-descending", "model-5"):
                     # the changed table (as PDB) against the base table (as mmCIF)
                     cases.append(mk_case("format", "table-" + vtag, rb, rp, cmap=cmap, source=name,
                                          skip=("gaps",) if vtag == "icode-siblings" else (),
@@ -525,6 +530,7 @@ def run(ctx):
             yes, undp = c04.parse_model(r)
             for kind, sig, detail in c04.compare(st, None, impl, yes, undp)[0]:
                 res.fail("corr", "C05:corr:" + sig, case_input(c), "changed presentation (%s): %s" % (c["tag"], detail))
+    cli_entry_pair(ctx, res)
     k = 0
     for ci, c in enumerate(cases):
         a, b = obs[ci]
@@ -534,6 +540,37 @@ def run(ctx):
                         "pairs": a["pairs"][:3], "stackings": a["stackings"][:2], "bph": a["bph"][:2], "br": a["br"][:2],
                         "dot": a["dot"][:1], "equal": not diff(rename_obs(a, c["cmap"]), b, c["skip"])})
     return res
+
+
+def cli_entry_pair(ctx, res):
+    """one entry of the corpus exists in both formats (4qln.pdb / 4qln.cif: riboswitch with two c-di-AMP ligands that pair and
+    stack with the RNA; the mmCIF file has entity tables, the PDB file cannot): the command-line tool must write the same
+    interaction table, BPSEQ and notation for both files, and each must be what the library gives for that file"""
+    import csv as _csv
+    import io
+    from core import fork_map
+    from corr import cli_annotator as CA
+    tests = os.environ.get("RNAPOLIS_TESTS", "/repo/tests")
+    pair = [os.path.join(tests, n) for n in ("4qln.cif", "4qln.pdb")]
+    if not all(os.path.exists(p) for p in pair):
+        res.count("cli-entry-pair:files-missing")
+        return
+    jobs = [(open(p).read(), os.path.splitext(p)[1], flags) for flags in (["-c", "-b", "-j"], ["-c", "-b", "-f"]) for p in pair]
+    outs = fork_map(CA._one, jobs, chunksize=1)
+    for k in range(0, len(jobs), 2):
+        (ta, sa, flags), oa, ob = jobs[k], outs[k], outs[k + 1]
+        res.count("cli-entry-pair:runs", 2)
+        res.case(("cli-entry-pair", tuple(flags)), nontrivial=True)
+        inp = {"family": "cli:entry-in-both-formats", "files": ["4qln.cif", "4qln.pdb"], "flags": flags}
+        for o, name in ((oa, "4qln.cif"), (ob, "4qln.pdb")):
+            if o["lib"] is not None and "file:-c" in o:
+                rows = [r for r in _csv.reader(io.StringIO(o["file:-c"], newline=""))]
+                if rows != o["lib"]["csv"]:
+                    res.fail("spec", "C05:cli:csv-differs-from-library", dict(inp, file=name), "%s: the tool's CSV has %d rows, the library's lists %d" % (name, len(rows), len(o["lib"]["csv"])))
+        for key, what in (("file:-c", "interaction table"), ("file:-b", "BPSEQ"), ("stdout", "printed notation")):
+            if oa.get(key) != ob.get(key):
+                res.fail("spec", "C05:cli:formats-differ:%s" % what.replace(" ", "-"), inp,
+                         "annotator %s: %s differs between the mmCIF and the PDB file of the same entry" % (" ".join(flags), what))
 
 
 # ------------------------------------------------------------------------------------------------ shrink / replay
@@ -587,6 +624,14 @@ def replay(ctx, data):
                 replay(ctx, {"input": c["input"], "signature": c["signature"]})
         return
     inp = data["input"]
+    if str(inp.get("family", "")).startswith("cli:entry"):
+        r = Result("C05")
+        cli_entry_pair(ctx, r)
+        for f in r.failures:
+            print("%s FAILURE %s: %s" % (f["kind"].upper(), f["signature"], f["detail"]))
+        if not r.failures:
+            print("no failure: both files give the same outputs")
+        return
     if "other" not in inp:
         if "texts" in inp:
             for k, suffix in (("pdb", ".pdb"), ("cif", ".cif")):
